@@ -40,7 +40,7 @@ CONSTANTS Cids,      \* a set of integers (calls process CIDs in ascending order
 
 VARIABLES bp, bs, pp, ps, bAt, pAt, cancels, seq,     \* protected by wllock
           work, sigs, rbReq,                          \* outgoingWork channel, producers yet to signal, rebroadcastNow
-          pc, snapC, snapP, snapB, nC, nP, nB, size,  \* send loop locals
+          pc, snapC, snapP, snapB, doneC, nP, nB, size,  \* send loop locals (snapC: set, built in map order)
           msg, markP, markB,                          \* mq.msg, entries whose Cid is still defined for onSent
           held,                                       \* receiver-side want-list after everything sent
           cwP, cwB,                                   \* ghost: client's current wants
@@ -48,7 +48,7 @@ VARIABLES bp, bs, pp, ps, bAt, pAt, cancels, seq,     \* protected by wllock
           ops, rbs
 
 lockvars == <<bp, bs, pp, ps, bAt, pAt, cancels, seq>>
-loopvars == <<pc, snapC, snapP, snapB, nC, nP, nB, size, msg, markP, markB>>
+loopvars == <<pc, snapC, snapP, snapB, doneC, nP, nB, size, msg, markP, markB>>
 vars == <<lockvars, work, sigs, rbReq, loopvars, held, cwP, cwB, sh, maxN, ops, rbs>>
 
 None == [t |-> 0, k |-> 0]
@@ -68,7 +68,6 @@ RECURSIVE SortK(_, _)
 SortK(S, w) == IF S = {} THEN <<>>
                ELSE LET c == CHOOSE x \in S : \A y \in S : w[x].k <= w[y].k
                     IN <<[c |-> c, t |-> w[c].t, k |-> w[c].k]>> \o SortK(S \ {c}, w)
-Perms(S) == {s \in [1..Cardinality(S) -> S] : \A i, j \in 1..Cardinality(S) : i # j => s[i] # s[j]}
 
 (* ---- producers: fold over the call's CID list on a record of the locked variables ------- *)
 Locked == [bp |-> bp, bs |-> bs, pp |-> pp, ps |-> ps, bAt |-> bAt, pAt |-> pAt, cancels |-> cancels,
@@ -123,7 +122,7 @@ PendingWork == Cardinality({c \in Cids : bp[c].t # 0}) + Cardinality({c \in Cids
                + Cardinality({c \in Cids : cancels[c] # 0})
 
 StartCycle == /\ pc = "rest" /\ work /\ work' = FALSE /\ pc' = "snap"
-              /\ UNCHANGED <<lockvars, sigs, rbReq, snapC, snapP, snapB, nC, nP, nB, size, msg, markP, markB,
+              /\ UNCHANGED <<lockvars, sigs, rbReq, snapC, snapP, snapB, doneC, nP, nB, size, msg, markP, markB,
                              held, cwP, cwB, sh, maxN, ops, rbs>>
 
 \* extractOutgoingMessage, first critical section
@@ -136,8 +135,8 @@ Snapshot ==
           /\ pAt' = [c \in Cids |-> pAt[c] /\ ~(c \in drop /\ ps1[c].t = 0)]
           /\ snapP' = SortK({c \in Cids : pp1[c].t # 0 /\ cancels[c] = 0}, pp1)
           /\ snapB' = SortK({c \in Cids : bp[c].t # 0 /\ cancels[c] = 0}, bp)
-          /\ snapC' \in Perms({c \in Cids : cancels[c] # 0})            \* map iteration order
-    /\ nC' = 0 /\ nP' = 0 /\ nB' = 0 /\ size' = 0
+          /\ snapC' = {c \in Cids : cancels[c] # 0}                       \* built in map iteration order
+    /\ doneC' = {} /\ nP' = 0 /\ nB' = 0 /\ size' = 0
     /\ pc' = "build"
     /\ UNCHANGED <<bp, bs, bAt, cancels, seq, work, sigs, rbReq, msg, markP, markB, held, cwP, cwB, sh, maxN, ops, rbs>>
 
@@ -149,34 +148,40 @@ MsgAdd(m, c, k, cancel, t, sdh) ==
                            sdh |-> m[c].sdh \/ sdh,
                            t |-> IF t = 2 /\ m[c].t = 1 THEN 2 ELSE m[c].t]]
 
-\* one iteration of one of the three lock-free loops
-BuildEntry ==
-    /\ pc = "build"
-    /\ IF nC < Len(snapC)
-       THEN LET c == snapC[nC + 1] IN
-            /\ msg' = MsgAdd(msg, c, 0, TRUE, 2, FALSE)
-            /\ size' = size + (IF msg[c].t = 0 THEN 1 ELSE 0)
-            /\ nC' = nC + 1 /\ UNCHANGED <<nP, nB>>
-       ELSE IF nP < Len(snapP)
-       THEN LET e == snapP[nP + 1] IN
-            /\ msg' = MsgAdd(msg, e.c, e.k, FALSE, e.t, TRUE)
-            /\ size' = size + (IF msg[e.c].t = 0 THEN 1 ELSE 0)
-            /\ nP' = nP + 1 /\ UNCHANGED <<nC, nB>>
-       ELSE IF nB < Len(snapB)
-       THEN LET e == snapB[nB + 1] IN
-            /\ msg' = MsgAdd(msg, e.c, e.k, FALSE, WireType("b", 1), FALSE)
-            /\ size' = size + (IF msg[e.c].t = 0 THEN 1 ELSE 0)
-            /\ nB' = nB + 1 /\ UNCHANGED <<nC, nP>>
-       ELSE UNCHANGED <<msg, size, nC, nP, nB>>
-    /\ pc' = IF (nC' + nP' + nB' = Len(snapC) + Len(snapP) + Len(snapB)) \/ size' >= maxN THEN "finish" ELSE "build"
-    /\ UNCHANGED <<lockvars, work, sigs, rbReq, snapC, snapP, snapB, markP, markB, held, cwP, cwB, sh, maxN, ops, rbs>>
+\* one iteration of one of the three lock-free loops (cancels, then peer wants, then broadcast wants)
+BuildDone(dC, p, b, sz) == IF (dC = snapC /\ p = Len(snapP) /\ b = Len(snapB)) \/ sz >= maxN THEN "finish" ELSE "build"
+BuildFrame == UNCHANGED <<lockvars, work, sigs, rbReq, snapC, snapP, snapB, markP, markB, held, cwP, cwB, sh, maxN, ops, rbs>>
+BuildCancel(c) ==
+    /\ pc = "build" /\ c \in snapC \ doneC
+    /\ msg' = MsgAdd(msg, c, 0, TRUE, 2, FALSE)
+    /\ size' = size + (IF msg[c].t = 0 THEN 1 ELSE 0)
+    /\ doneC' = doneC \cup {c} /\ UNCHANGED <<nP, nB>>
+    /\ pc' = BuildDone(doneC', nP, nB, size') /\ BuildFrame
+BuildPeer ==
+    /\ pc = "build" /\ doneC = snapC /\ nP < Len(snapP)
+    /\ LET e == snapP[nP + 1] IN
+         /\ msg' = MsgAdd(msg, e.c, e.k, FALSE, e.t, TRUE)
+         /\ size' = size + (IF msg[e.c].t = 0 THEN 1 ELSE 0)
+    /\ nP' = nP + 1 /\ UNCHANGED <<doneC, nB>>
+    /\ pc' = BuildDone(doneC, nP', nB, size') /\ BuildFrame
+BuildBcst ==
+    /\ pc = "build" /\ doneC = snapC /\ nP = Len(snapP) /\ nB < Len(snapB)
+    /\ LET e == snapB[nB + 1] IN
+         /\ msg' = MsgAdd(msg, e.c, e.k, FALSE, WireType("b", 1), FALSE)
+         /\ size' = size + (IF msg[e.c].t = 0 THEN 1 ELSE 0)
+    /\ nB' = nB + 1 /\ UNCHANGED <<doneC, nP>>
+    /\ pc' = BuildDone(doneC, nP, nB', size') /\ BuildFrame
+BuildNone ==     \* nothing was pending
+    /\ pc = "build" /\ snapC = {} /\ Len(snapP) = 0 /\ Len(snapB) = 0
+    /\ pc' = "finish" /\ UNCHANGED <<msg, size, doneC, nP, nB>> /\ BuildFrame
+BuildEntry == (\E c \in Cids : BuildCancel(c)) \/ BuildPeer \/ BuildBcst \/ BuildNone
 
 \* second critical section: markSent, withdraw what changed meanwhile
 Finish(ab) ==      \* ab \subseteq {"Empty", "Mark"}: as-built alternatives taken
     /\ pc = "finish"
     /\ LET builtP == {snapP[i] : i \in 1..nP}
            builtB == {snapB[i] : i \in 1..nB}
-           builtC == {snapC[i] : i \in 1..nC}
+           builtC == doneC
            \* markSent: as built pending.RemoveType succeeds whenever SOME removable want for the CID is pending,
            \* also a weaker one added after a cancel in the lock-free window (the message then carries the
            \* withdrawn stronger type); ideal: the pending want must still be the one that was built.
@@ -200,13 +205,13 @@ Finish(ab) ==      \* ab \subseteq {"Empty", "Mark"}: as-built alternatives take
              THEN /\ pc' = "rest"                                     \* if message.Empty() { return }
                   /\ work' = IF "Empty" \in ab THEN work ELSE (work \/ pend1 > 0)
              ELSE pc' = "send" /\ UNCHANGED work
-    /\ UNCHANGED <<bAt, pAt, seq, sigs, rbReq, snapC, snapP, snapB, nC, nP, nB, size, held, cwP, cwB, sh, maxN, ops, rbs>>
+    /\ UNCHANGED <<bAt, pAt, seq, sigs, rbReq, snapC, snapP, snapB, doneC, nP, nB, size, held, cwP, cwB, sh, maxN, ops, rbs>>
 \* the receiver's want-list
 Apply(h, m) == [c \in Cids |-> IF m[c].t = 0 THEN h[c]
                                ELSE IF m[c].cancel THEN 0
                                ELSE IF h[c] = 2 \/ (h[c] = 1 /\ m[c].t = 1) THEN h[c] ELSE m[c].t]
 Send == /\ pc = "send" /\ held' = Apply(held, msg) /\ pc' = "onsent"
-        /\ UNCHANGED <<lockvars, work, sigs, rbReq, snapC, snapP, snapB, nC, nP, nB, size, msg, markP, markB,
+        /\ UNCHANGED <<lockvars, work, sigs, rbReq, snapC, snapP, snapB, doneC, nP, nB, size, msg, markP, markB,
                        cwP, cwB, sh, maxN, ops, rbs>>
 
 \* onSent: setSentAt for the entries that were marked sent and are still on the sent list
@@ -214,16 +219,16 @@ OnSent == /\ pc = "onsent"
           /\ pAt' = [c \in Cids |-> pAt[c] \/ (c \in markP /\ ps[c].t # 0)]
           /\ bAt' = [c \in Cids |-> bAt[c] \/ (c \in markB /\ bs[c].t # 0)]
           /\ pc' = "count"
-          /\ UNCHANGED <<bp, bs, pp, ps, cancels, seq, work, sigs, rbReq, snapC, snapP, snapB, nC, nP, nB, size,
+          /\ UNCHANGED <<bp, bs, pp, ps, cancels, seq, work, sigs, rbReq, snapC, snapP, snapB, doneC, nP, nB, size,
                          msg, markP, markB, held, cwP, cwB, sh, maxN, ops, rbs>>
 \* pendingWorkCount (< sendMessageCutoff assumed), deferred msg.Reset
 Count == /\ pc = "count"
          /\ work' = (work \/ PendingWork > 0)
          /\ msg' = [c \in Cids |-> NoEntry] /\ pc' = "rest"
-         /\ UNCHANGED <<lockvars, sigs, rbReq, snapC, snapP, snapB, nC, nP, nB, size, markP, markB, held, cwP, cwB,
+         /\ UNCHANGED <<lockvars, sigs, rbReq, snapC, snapP, snapB, doneC, nP, nB, size, markP, markB, held, cwP, cwB,
                         sh, maxN, ops, rbs>>
 
-RebroadcastReq == /\ pc = "rest" /\ ~rbReq /\ rbReq' = TRUE /\ rbs' = rbs + 1
+RebroadcastReq == /\ ~rbReq /\ rbReq' = TRUE /\ rbs' = rbs + 1
                   /\ UNCHANGED <<lockvars, work, sigs, loopvars, held, cwP, cwB, sh, maxN, ops>>
 \* rebroadcastWantlist(now, 0): every sent want with a sentAt entry goes back to pending.
 \* As built refresh also takes it OFF the sent list, so until it is re-sent AddCancels sees "never sent";
@@ -237,7 +242,7 @@ DoRefresh(asBuilt) ==
           /\ ps' = [c \in Cids |-> IF c \in mp /\ asBuilt THEN None ELSE ps[c]]
           /\ pp' = [c \in Cids |-> IF c \in mp THEN WlAdd(pp, c, ps[c].k, ps[c].t)[c] ELSE pp[c]]
           /\ pc' = IF mb \cup mp # {} THEN "snap" ELSE "rest"
-    /\ UNCHANGED <<bAt, pAt, cancels, seq, work, sigs, snapC, snapP, snapB, nC, nP, nB, size, msg, markP, markB,
+    /\ UNCHANGED <<bAt, pAt, cancels, seq, work, sigs, snapC, snapP, snapB, doneC, nP, nB, size, msg, markP, markB,
                    held, cwP, cwB, sh, maxN, ops, rbs>>
 
 (* ---- the system ------------------------------------------------------------------------------ *)
@@ -245,7 +250,7 @@ Init == /\ bp = [c \in Cids |-> None] /\ bs = bp /\ pp = bp /\ ps = bp
         /\ bAt = [c \in Cids |-> FALSE] /\ pAt = bAt
         /\ cancels = [c \in Cids |-> 0] /\ seq = 1
         /\ work = FALSE /\ sigs = 0 /\ rbReq = FALSE
-        /\ pc = "rest" /\ snapC = <<>> /\ snapP = <<>> /\ snapB = <<>> /\ nC = 0 /\ nP = 0 /\ nB = 0 /\ size = 0
+        /\ pc = "rest" /\ snapC = {} /\ snapP = <<>> /\ snapB = <<>> /\ doneC = {} /\ nP = 0 /\ nB = 0 /\ size = 0
         /\ msg = [c \in Cids |-> NoEntry] /\ markP = {} /\ markB = {}
         /\ held = [c \in Cids |-> 0] /\ cwP = [c \in Cids |-> 0] /\ cwB = [c \in Cids |-> FALSE]
         /\ sh \in BOOLEAN /\ maxN \in {1, 2, Unbounded}
@@ -274,7 +279,7 @@ Idle == pc = "rest" /\ ~work /\ sigs = 0 /\ ~rbReq
 Converged == Idle => \A c \in Cids : held[c] = Exp(c)
 WantNeverUnsent == Idle => \A c \in Cids : bp[c].t = 0 /\ pp[c].t = 0 /\ cancels[c] = 0
 \* at any time: a want the peer holds but the client dropped has its cancel queued or in flight
-InFlightCancel(c) == \/ (pc \in {"build", "finish"} /\ \E i \in 1..Len(snapC) : snapC[i] = c)
+InFlightCancel(c) == \/ (pc \in {"build", "finish"} /\ c \in snapC)
                      \/ (pc = "send" /\ msg[c].t # 0 /\ msg[c].cancel)
 CancelNeverLeftActive == \A c \in Cids : (held[c] # 0 /\ cwP[c] = 0 /\ ~cwB[c]) => (cancels[c] # 0 \/ InFlightCancel(c))
 NoHaveToLegacyPeer == ~sh => \A c \in Cids : msg[c].t # 1 /\ held[c] # 1
